@@ -28,6 +28,9 @@ func init() {
 			c06WinnerFlow(r)
 			c06ReadRepair(r)
 			c06Merge(r)
+			c09SanitizeKeepsVersions(r)
+			c04ReplicaVerbatim(r)
+			c03PreviousOwners(r)
 		},
 	})
 }
